@@ -185,8 +185,13 @@ func (t *Typedef) resolve(d *typeDictionary) []error {
 // cannot be resolved then one or more errors are returned.
 func (t *Type) resolve(d *typeDictionary) (errs []error) {
 	if t.YangType != nil {
-		return nil
+		return t.resolveErrs
 	}
+	defer func() {
+		if t.YangType != nil {
+			t.resolveErrs = errs
+		}
+	}()
 
 	// If t.Name is a base type then td will not be nil, otherwise
 	// td will be nil and of type *Typedef.
